@@ -353,3 +353,10 @@ class CSSMediaRule(cssrule.CSSRuleRules):
     )
 
     wellformed = property(lambda self: self.media.wellformed)
+
+    def _getValid(self):
+        """Check if each contained rule is valid."""
+        # as for a sheet: not all rules can be checked for validity
+        return all(rule.valid for rule in self.cssRules if hasattr(rule, 'valid'))
+
+    valid = property(_getValid, doc='``True`` if all contained rules are valid')
